@@ -3,6 +3,7 @@ package main
 import "fmt"
 
 const communityPkg = zlintMod + "/lints/community"
+const cabfBRPkg = zlintMod + "/lints/cabf_br"
 
 func init() {
 	checks["C16"] = func(c *Check) {
